@@ -252,12 +252,12 @@ def handle (name : String) (args : List String) : String :=
     match parseSegs args with
     | some (l, "|" :: rest) =>
       match parseCuts rest with
-      | some cuts => "ok " ++ showSegs (Extremes.splitAtPoints l cuts)
+      | some cuts => "ok " ++ showSegs (Extremes.splitAtPointsDict l cuts)
       | none => "bad-args"
     | _ => "bad-args"
   | "addExtremes" =>
     match parseSegs args with
-    | some (l, []) => "ok " ++ showSegs (Extremes.addExtremes ratSqrt l)
+    | some (l, []) => "ok " ++ showSegs (Extremes.addExtremesDict ratSqrt l)
     | _ => "bad-args"
   | "nodelist.to" =>
     match parseSegs args with
